@@ -125,6 +125,19 @@ CLAIMED = {
              'the specification (strtoul quirk, recorded in DESIGN.md). Parse-time macro expansion (expandmacros, -D) is not modelled yet. Known '
              'finding F20: `move "...\\1" flag new` leaves the template uninterpolated (listed under C09).',
         technique='Lean 4 proof (C loop = token-wise substitution) + differential execution + spec evaluated on real captures'),
+    'C13': dict(
+        text='PARTIAL. Machine-checked for arbitrary call results (runOracle): the argument vector is one interpolated string per configured '
+             'string, in order (C13_argv, with C12_interpolate for the content); the value of exec() is a function of the fork/wait results '
+             '- 0, exit code, -1 for 127 and fork/waitpid//dev/null failures, 128+signal (C13_status); a non-zero value is an error of the exec '
+             'action (C13_exec_failure_is_error) and an error stops the remaining actions of that message (C13_error_stops_actions). Tied to the '
+             'real binary: generated exec/command scenarios with hostile argument vectors, every stdin option, exec after label/move, inside '
+             'attachment blocks, in stdin mode, exit statuses and signals; a helper program records argv bytes, stdin bytes, inherited '
+             'descriptors and the stdin target, compared with the configured vector and the current message / decoded body / part; '
+             'call-by-call conformance with Model.mainP.',
+        note='NOT proved: "the child inherits no descriptor other than 0, 1, 2" and "stdin reads from offset 0" - close-on-exec flags and file '
+             'offsets are not in the abstract file system; they are decided by the helper records on the real binary only (the seeded change that '
+             'drops O_CLOEXEC is detected that way). fork/execvp/dup2 in the child are the kernel\'s.',
+        technique='Lean 4 proof (program-over-calls model, arbitrary results) + helper-recorded exec observations on the real binary'),
     'C15': dict(
         text='Machine-checked: the numeric zone +-hhmm denotes +-(3600 hh + 60 mm) for hh<=23, mm<=59 and nothing else is accepted '
              '(C15_zone_offset, C15_zone_offset_only); the civil-date arithmetic of timegm is the proleptic Gregorian day count for every date '
@@ -150,13 +163,36 @@ CLAIMED = {
         technique='Lean 4 proof of model = reference decoder + differential execution model/implementation'),
 }
 
+CLAIMED.update({
+    'C17': dict(
+        text='Machine-checked for ARBITRARY call results, hence for every interleaving with any number of parties (another mdsort, a mail client): '
+             'executing an action list never unlinks or renames a name other than the message\'s own name or a name this run created with '
+             'O_CREAT|O_EXCL, and never renames onto a name it did not create (C17_never_touches_foreign): it never replaces another party\'s '
+             'file nor removes the winner\'s copy; a party whose rename finds the source gone reports an error (C17_loser_reports_error). Tied '
+             'to the real binaries: 48 ordered pairs of parties x every schedule in which the second runs to completion before call k of the '
+             'first (~2100 schedules): every message exactly once, intact, no stray or partial file.',
+        note='The exactly-once clause does NOT hold on the pinned code: known findings F14 (a rewritten/cross-device copy stands next to its '
+             'original in new/cur and a second party processes both: duplicates) and F13 (placeholders are created in new/cur and can be taken '
+             'for messages) are confirmed on every run and classified by history; any other loss/duplicate/stray is a violation. Real kernel '
+             'interleavings inside a system call are not explored.',
+        technique='Lean 4 proof over arbitrary call results (covers all interleavings) + pause-point schedules of two real processes'),
+    'C18': dict(
+        text='Machine-checked: pathjoin and strlcpy accept exactly the results shorter than the buffer and then return the complete string, for '
+             'every buffer size (C18_pathjoin_exact, C18_strlcpy_exact); in the model every fixed-size buffer is filled by an Option-returning '
+             'setter, so a truncated path is not a value the programs of Model.mainP can pass to a call. Tied to the real binary: every length '
+             'in a +-8 window around the limit for destination paths (literal, after ~, after macro expansion, after interpolation), a move '
+             'merged with a flag action (decoy maildir at the 255-character prefix), the generated file name through the host name, and '
+             'TMPDIR of the stdin spool: over the limit => non-zero exit and no file appears or disappears, within => delivered exactly at the '
+             'intended path, no libc call uses a proper prefix of the intended path.',
+        note='pathslice (used to split configured destinations) is transcribed and exercised by the correspondence runs but has no theorem. '
+             'HOME and the maildir path literal near PATH_MAX are not in the sweep (readenv errc; fixed F18 covers the maildir path).',
+        technique='Lean 4 proof (setters are exact; truncation unrepresentable in the model) + boundary sweeps on the real binary'),
+})
+
 NOT_YET = {
     'C06': 'check under construction',
     'C07': 'check under construction',
-    'C13': 'check under construction',
     'C14': 'check under construction',
-    'C17': 'check under construction',
-    'C18': 'check under construction',
 }
 
 
